@@ -267,9 +267,24 @@ impl<'a> DeltaUpdate<'a> {
 // A monotone ghost fact: "at some point the archive file at `path` held exactly `objs` and was
 // given the state record `st`" (produced only by update_state).
 uninterp spec fn archive_committed(path: PathBuf, objs: Map<RsyncUri, Seq<u8>>, st: RepositoryState) -> bool;
+// "The object map `objs` is the content the server published for (session, serial)" -- as far
+// as this verification can know it: true of a copy whose state record says so (the archive's
+// invariant over runs, kept by the precondition of update_state/publish_state below) and carried
+// from serial s to s+1 by one completely applied, hash-checked delta for serial s+1 (ASSUMED axiom:
+// this is the paper step "the delta file with the listed SHA-256 is the server's change set for
+// its serial" made explicit).
+pub uninterp spec fn serial_reached(objs: Map<RsyncUri, Seq<u8>>, session: Uuid, serial: u64) -> bool;
+pub broadcast axiom fn axiom_delta_advances_serial(before: Map<RsyncUri, Seq<u8>>, after: Map<RsyncUri, Seq<u8>>,
+                                                   session: Uuid, s: u64, info: &DeltaInfo)
+    ensures
+        (#[trigger] serial_reached(before, session, s) && #[trigger] delta_applied(before, after, session, info)
+            && info.serial_spec() == s + 1) ==> serial_reached(after, session, info.serial_spec());
 impl RrdpArchive {
+    // C25 ("state written last"): a state record may only be written onto an object map that HAS
+    // REACHED the record's session and serial -- never a record that runs ahead of the content.
     #[verifier::external_body]
     fn update_state(&mut self, state: &RepositoryState) -> (r: Result<(), RunFailed>)
+        requires serial_reached(old(self).objects(), state.session, state.serial),
         ensures
             final(self).path_spec() == old(self).path_spec(),
             final(self).objects() == old(self).objects(),
@@ -335,7 +350,8 @@ impl RrdpArchive {
     { unimplemented!() }
     #[verifier::external_body]
     fn load_state(&self) -> (r: Result<RepositoryState, RunFailed>)
-        ensures r matches Ok(s) ==> s == self.state(),
+        // archive invariant: the stored record describes the stored content
+        ensures r matches Ok(s) ==> s == self.state() && serial_reached(self.objects(), s.session, s.serial),
     { unimplemented!() }
 }
 
@@ -412,6 +428,7 @@ impl RrdpArchive {
     // first write of the state record (a fresh archive); same effect on the model as update_state
     #[verifier::external_body]
     fn publish_state(&mut self, state: &RepositoryState) -> (r: Result<(), RunFailed>)
+        requires serial_reached(old(self).objects(), state.session, state.serial),
         ensures
             final(self).path_spec() == old(self).path_spec(),
             final(self).objects() == old(self).objects(),
